@@ -130,6 +130,8 @@ pub enum Op {
     Multi(Vec<String>),
     Text(Vec<String>),
     Get(Vec<String>, String),
+    /// remove_child(name) at the first path, then add_unique_child of that very element (position and subtree included) at the second
+    Move(Vec<String>, String, Vec<String>),
 }
 
 #[derive(Clone, Debug)]
@@ -183,6 +185,7 @@ impl Op {
             Op::Multi(p) => format!("multi {}", path_tokens(p)),
             Op::Text(p) => format!("text {}", path_tokens(p)),
             Op::Get(p, n) => format!("get {} {}", path_tokens(p), enc(n)),
+            Op::Move(p, n, q) => format!("move {} {} {}", path_tokens(p), enc(n), path_tokens(q)),
         }
     }
     fn apply(&self, root: &mut Element<String>) -> Option<(bool, String)> {
@@ -220,6 +223,19 @@ impl Op {
                 None
             }
             Op::Get(p, n) => at_path(root, p).and_then(|e| e.get_child(n).map(nec_name)),
+            Op::Move(p, n, q) => {
+                let taken = at_path(root, p).and_then(|e| e.remove_child(n));
+                match taken {
+                    Some(c) => {
+                        let r = nec_name(&c);
+                        if let Some(e) = at_path(root, q) {
+                            e.add_unique_child(c.into_inner_t());
+                        }
+                        Some(r)
+                    }
+                    None => None,
+                }
+            }
         }
     }
     fn json(&self) -> Value {
@@ -231,6 +247,7 @@ impl Op {
             Op::Multi(p) => json!({"op": "set_multiple", "path": p}),
             Op::Text(p) => json!({"op": "set_text", "path": p}),
             Op::Get(p, n) => json!({"op": "get_child", "path": p, "name": n}),
+            Op::Move(p, n, q) => json!({"op": "move_child", "path": p, "name": n, "to": q}),
         }
     }
     fn from_json(v: &Value) -> Option<Op> {
@@ -245,6 +262,7 @@ impl Op {
             "set_multiple" => Op::Multi(p),
             "set_text" => Op::Text(p),
             "get_child" => Op::Get(p, n),
+            "move_child" => Op::Move(p, n, strs(&v["to"])),
             _ => return None,
         })
     }
@@ -365,18 +383,24 @@ pub fn op_alphabet() -> Vec<Op> {
     v.push(Op::Text(vec!["x".into()]));
     v.push(Op::MAttr(vec!["x".into()], vec![(true, "a".into()), (false, "b".into())]));
     v.push(Op::Get(vec![], "x".into()));
+    // a child moved with its position and subtree: up from below `x`, down into `x`
+    v.push(Op::Move(vec!["x".into()], "y".into(), vec![]));
+    v.push(Op::Move(vec![], "y".into(), vec!["x".into()]));
     v
 }
 
 pub fn random_ops(rng: &mut Rng, len: usize) -> Vec<Op> {
-    let names = ["x", "y", "X", "z", "x-y", "type", "text", "Foo", "foo"];
+    // half of the sequences live in a small world (two or three names), where the same name meets itself in every role
+    let all_names = ["x", "y", "X", "z", "x-y", "type", "text", "Foo", "foo"];
+    let small = rng.chance(1, 2);
+    let names: Vec<&str> = if small { all_names[..2 + rng.below(2)].to_vec() } else { all_names.to_vec() };
     let attrs = ["a", "b", "x", "text", "type"];
     let mut paths: Vec<Vec<String>> = vec![vec![]];
     let mut ops = Vec::new();
     for _ in 0..len {
         let p = rng.pick(&paths).clone();
         let n = rng.pick(&names).to_string();
-        let op = match rng.below(12) {
+        let op = match rng.below(14) {
             0 | 1 | 2 | 3 => {
                 if p.len() < 3 {
                     let mut np = p.clone();
@@ -399,7 +423,11 @@ pub fn random_ops(rng: &mut Rng, len: usize) -> Vec<Op> {
             }
             9 => Op::Multi(p),
             10 => Op::Text(p),
-            _ => Op::Get(p, n),
+            11 => Op::Get(p, n),
+            _ => {
+                let q = rng.pick(&paths).clone();
+                Op::Move(p, n, q)
+            }
         };
         ops.push(op);
     }
